@@ -275,9 +275,9 @@ theorem C12_read_wellformed (data : J) (o : Opts) (parts : List Part) (courses :
     first three conjuncts of `N2.validb` hold for every room list -/
 theorem C12_read_wellformed_checks (data : J) (o : Opts) (parts : List Part) (courses : List Course)
     (amb : Ambience) (rooms : Option (List Nat)) (h : CD.read data o = .ok (parts, courses, amb)) :
-    (CD.toInst parts courses rooms).precomputeOk = true ∧
-      (CD.toInst parts courses rooms).cs.all (fun c => decide (c.numMin ≤ c.numMax)) = true ∧
-      N2.nodupb (CD.toInst parts courses rooms).allInstructors = true := by
+    (CD.toInstR parts courses rooms).precomputeOk = true ∧
+      (CD.toInstR parts courses rooms).cs.all (fun c => decide (c.numMin ≤ c.numMax)) = true ∧
+      N2.nodupb (CD.toInstR parts courses rooms).allInstructors = true := by
   obtain ⟨rdata, -, wf⟩ := CD.read_wellformed h
   exact ⟨wf.precomputeOk rooms, wf.minMaxb rooms, wf.nodupb rooms⟩
 
@@ -286,9 +286,9 @@ theorem C12_read_wellformed_checks (data : J) (o : Opts) (parts : List Part) (co
 theorem C12_read_wellformed_instOK2 (data : J) (o : Opts) (parts : List Part) (courses : List Course)
     (amb : Ambience) (rooms : Option (List Nat)) (h : CD.read data o = .ok (parts, courses, amb))
     (hpen : ∀ p ∈ parts, ∀ ch ∈ p.choices, ch.2 ≤ N2.WEIGHT) :
-    N2.InstOK2 (CD.toInst parts courses rooms) ∧
-      ∀ c, c < (CD.toInst parts courses rooms).C →
-        ((CD.toInst parts courses rooms).course c).numMin ≤ ((CD.toInst parts courses rooms).course c).numMax :=
+    N2.InstOK2 (CD.toInstR parts courses rooms) ∧
+      ∀ c, c < (CD.toInstR parts courses rooms).C →
+        ((CD.toInstR parts courses rooms).course c).numMin ≤ ((CD.toInstR parts courses rooms).course c).numMax :=
   CD.read_instOK2 h rooms hpen
 
 /-- … or, as a condition on the export alone, provided no registration lists more than 50001
@@ -297,9 +297,9 @@ theorem C12_read_wellformed_of_len (data : J) (o : Opts) (parts : List Part) (co
     (amb : Ambience) (rooms : Option (List Nat)) (h : CD.read data o = .ok (parts, courses, amb))
     (hlen : ∀ rdata, (data.get "registrations").bind J.asObject = some rdata →
       ∀ kv ∈ rdata, ∀ chs, CD.regChoices kv.2 amb.trackId = some chs → chs.length ≤ N2.WEIGHT + 1) :
-    N2.InstOK2 (CD.toInst parts courses rooms) ∧
-      ∀ c, c < (CD.toInst parts courses rooms).C →
-        ((CD.toInst parts courses rooms).course c).numMin ≤ ((CD.toInst parts courses rooms).course c).numMax :=
+    N2.InstOK2 (CD.toInstR parts courses rooms) ∧
+      ∀ c, c < (CD.toInstR parts courses rooms).C →
+        ((CD.toInstR parts courses rooms).course c).numMin ≤ ((CD.toInstR parts courses rooms).course c).numMax :=
   CD.read_instOK2_of_len h rooms hlen
 
 #print axioms C12_read_wellformed
